@@ -155,19 +155,35 @@ fn compare(engine: &[Row], e: &Expected) -> Result<(), Diff> {
     }
 }
 
-/// Localisation by feature toggle: the variant ran with `enable_window_limits=true` and differs; it
-/// agrees with the definition as soon as `enable_topk_repartition=false` keeps the pushed-down
-/// `SortExec: TopK(fetch = limit + look-ahead)` above the hash RepartitionExec. (A TopK below a hash
-/// repartition only preserves the *global* first k rows; the window executor needs the first k rows
-/// of every output partition.)
-fn limit_rewrite_with_topk_repartition(case: &Case, v: &Variant) -> bool {
-    if !v.settings.iter().any(|(k, val)| k.ends_with("enable_window_limits") && val == "true") {
-        return false;
+/// Root-cause classification for the window-limit rewrite: the query agrees with the definition
+/// with `enable_window_limits=false`, differs with `true`, and the rewritten plan carries
+/// `fetch = limit + look-ahead` on a partition-local sort (`SortExec: TopK(..),
+/// preserve_partitioning=[true]`) below the window executor. A partitioned TopK only guarantees
+/// the *global* first k rows (its partitions share one dynamic threshold, and TopKRepartition copies
+/// it below the hash RepartitionExec); the PARTITION BY window needs the first k rows of every
+/// output partition. The text reports which TopK switches, when off, hide the difference.
+fn limit_rewrite_partition_local_topk(case: &Case, v: &Variant, plan_text: &str, baseline_ok: Option<bool>) -> Option<String> {
+    if !v.settings.iter().any(|(k, val)| k.ends_with("enable_window_limits") && val == "true") || baseline_ok != Some(true) {
+        return None;
     }
-    let mut v2 = v.clone();
-    v2.settings.push(("datafusion.optimizer.enable_topk_repartition".to_string(), "false".to_string()));
-    let res = vcommon::par::guard(|| dfv::engine::current_thread_rt().block_on(run_variant(&case.table, &case.sql, &v2, &case.sort)));
-    matches!(res, Ok(Ok(r)) if compare(&r.rows, &case.expected).is_ok())
+    if !plan_text.lines().any(|l| l.contains("SortExec: TopK(fetch=") && l.contains("preserve_partitioning=[true]")) {
+        return None;
+    }
+    let agrees_without = |keys: &[&str]| -> bool {
+        let mut v2 = v.clone();
+        for k in keys {
+            v2.settings.push((format!("datafusion.optimizer.{k}"), "false".to_string()));
+        }
+        let res = vcommon::par::guard(|| dfv::engine::current_thread_rt().block_on(run_variant(&case.table, &case.sql, &v2, &case.sort)));
+        matches!(res, Ok(Ok(r)) if compare(&r.rows, &case.expected).is_ok())
+    };
+    let (dynf, rep) = ("enable_topk_dynamic_filter_pushdown", "enable_topk_repartition");
+    Some(format!(
+        "agrees with enable_window_limits=false; the rewritten plan has a partition-local TopK; re-run with {dynf}=false agrees: {}; with {rep}=false agrees: {}; with both off agrees: {}",
+        agrees_without(&[dynf]),
+        agrees_without(&[rep]),
+        agrees_without(&[dynf, rep])
+    ))
 }
 
 /// Root-cause classification of a per-id difference: every differing cell belongs to a window with a
@@ -584,6 +600,8 @@ fn one_case(rep: &Report, case: &Case, selftest: bool, verbose: bool) {
     let nontrivial = !case.table.rows.is_empty();
     let mut compared_any = false;
     let mut plans_by_setting: Vec<String> = vec![];
+    // outcome of the variant that ran with the rewrite under test switched off
+    let mut baseline_ok: Option<bool> = None;
     for v in &case.variants {
         let sort: Vec<SortKey> = if v.kind == VK::Linear { case.query.as_ref().map(|q| required_sort(&q.wins[0], false)).unwrap_or_default() } else { case.sort.clone() };
         let res = vcommon::par::guard(|| {
@@ -680,15 +698,21 @@ fn one_case(rep: &Report, case: &Case, selftest: bool, verbose: bool) {
         if verbose {
             println!("--- variant {} ---\n{}\nengine rows: {}", v.to_json(), ran.plan_text, dfv::value::rows_to_json(&ran.rows));
         }
-        if let Err(d) = compare(&ran.rows, &case.expected) {
+        let outcome = compare(&ran.rows, &case.expected);
+        if v.settings.iter().any(|(k, val)| k.contains("enable_window") && val == "false") {
+            baseline_ok = Some(outcome.is_ok());
+        }
+        if let Err(d) = outcome {
             let c = case.cells.first().cloned().unwrap_or_default();
+            let mut localisation = String::new();
             // deviations whose root cause can be keyed precisely get their own signature
             let sig = if case.stage == "edge" && boundary_overflows(case) {
                 rep.count("classified/range-offset-boundary-overflow", 1);
                 "range-offset-boundary-overflow".to_string()
-            } else if limit_rewrite_with_topk_repartition(case, v) {
-                rep.count("classified/window-limit-under-topk-repartition", 1);
-                "window-limit-under-topk-repartition".to_string()
+            } else if let Some(how) = limit_rewrite_partition_local_topk(case, v, &ran.plan_text, baseline_ok) {
+                rep.count("classified/window-limit-per-partition-topk", 1);
+                localisation = how;
+                "window-limit-per-partition-topk".to_string()
             } else if causal_range_null_peers(case, &d, &ran.execs) {
                 rep.count("classified/bounded-executor-range-offset-null-peers", 1);
                 "bounded-executor-range-offset-null-peers".to_string()
@@ -696,7 +720,8 @@ fn one_case(rep: &Report, case: &Case, selftest: bool, verbose: bool) {
                 UNCLASSIFIED.fetch_add(1, std::sync::atomic::Ordering::Relaxed);
                 format!("value-mismatch/{}/{}/{}", exec_label, c.0, c.1)
             };
-            rep.violation(&sig, witness(case, v, Some(&ran), &d.text));
+            let note = if localisation.is_empty() { d.text.clone() } else { format!("{}; {localisation}", d.text) };
+            rep.violation(&sig, witness(case, v, Some(&ran), &note));
         }
     }
     if plans_by_setting.len() == 2 {
@@ -735,7 +760,14 @@ fn run_check(args: &Args) -> i32 {
             "reversed" => "reversed",
             _ => "random",
         };
-        one_case(&rep, &make_case(args.seed, stage, idx.parse().unwrap_or(0)), selftest, true);
+        let mut case = make_case(args.seed, stage, idx.parse().unwrap_or(0));
+        // `--opt set=key=value`: one more session setting for every variant of the replayed case
+        for (k, val) in args.opt_str("set").unwrap_or("").split(';').filter_map(|kv| kv.split_once('=')) {
+            for v in case.variants.iter_mut() {
+                v.settings.push((k.to_string(), val.to_string()));
+            }
+        }
+        one_case(&rep, &case, selftest, true);
         return rep.finish();
     }
     let n_random = args.bound("random", 1200, 80_000);
